@@ -6,6 +6,12 @@ import json, os
 ENV = "GOFLAGS=-mod=mod GOPROXY=off GOSUMDB=off GOTOOLCHAIN=local GOWORK=off"
 
 CLAIMED = {
+ "C01": dict(
+  level="proof",
+  technique="static analysis: abstract interpretation of go/ssa (linear-constraint domain with Fourier-Motzkin entailment, congruences, exact fixed-width wrap-around, abstract memory, context-sensitive calls, widening) generating bounds/nil/termination/allocation obligations",
+  text="Proof over the abstract semantics of checker/num: each of the 24 decode entry points is analysed with an unconstrained input slice (every length, every byte value) and a zero receiver; every index, slice (against the LENGTH), binary.BigEndian access, pointer/interface dereference, division, type assertion, reflect call with a precondition, loop and allocation in the reachable universe yields an obligation that must be entailed at that instruction in every calling context. All ~840 obligations must be discharged; an undecided obligation fails the check (it is never waived by position or text). Loops over the recursive reflection reader are decided by a type-shape rule (acyclic type graph, element wire size >= 1). This reaches what the fuzz seeds cannot: the quantifier is all byte strings, including direct calls of each decoder with frames that rtcp.Unmarshal would never pre-slice that way.",
+  note="Trusted: go/ssa, the engine's transfer functions and entailment, the model of encoding/binary/bytes/fmt/errors/math/reflect, Go's panic conditions. Assumes zero, non-nil receivers; slices shorter than 2^50; no overflow of 64-bit int arithmetic on lengths/counters (32-bit int not covered). M-ALLOC decides single-allocation bounds and trip-count bounds of allocating loops, not amortised products across loop nests (DESIGN.md).",
+  design="DESIGN.md §2 C01, §3"),
  "C07": dict(
   level="proof",
   technique="static analysis: conditional constant propagation with abstract heap over go/ssa, evaluated for every (P,FMT,PT) of the header; table comparison with the IANA registry",
